@@ -166,21 +166,27 @@ JudgeCalc(Ws, r) ==
 JudgeCanon(Ws, r) ==
   IF ~WellScoped(r.pre) THEN Verdict(r.id, TRUE, "skip-not-well-scoped", NoCmp)
   ELSE IF HasQ(r.pre) THEN Verdict(r.id, TRUE, "skip-q-factor", NoCmp)
-  ELSE CASE r.out.k = "exc" -> Verdict(r.id, FALSE, "raised", NoCmp)
+  ELSE CASE r.out.k = "exc" -> \* a presentation that denotes nothing (division by zero at every point) may be refused
+                             IF Cmp(Ws, r.pre, r.pre).ndef = 0 THEN Verdict(r.id, TRUE, "raised-on-undefined", NoCmp)
+                             ELSE Verdict(r.id, FALSE, "raised", NoCmp)
          [] r.out.k = "expr" ->
               IF "unser" \in DOMAIN r.out THEN Verdict(r.id, FALSE, "unserialisable", NoCmp)
               ELSE LET c == Cmp(Ws, r.out.e, r.pre) IN
                    IF c.nbad > 0 THEN Verdict(r.id, FALSE, "value", c)
                    ELSE Verdict(r.id, TRUE, IF c.ndef = 0 THEN "skip-undefined" ELSE "ok", c)
 \* print / parse (C12): parsing succeeds, same denotation; on the un-nested family also the same object and text
+\* (objects built with the raw Product / Fraction constructors are not "constructed with the builders and operators":
+\*  the parser cannot reproduce an unsorted product; only the meaning clause applies to them)
 JudgePP(Ws, r) ==
   IF ~NamesOnce(r.a) THEN Verdict(r.id, TRUE, "skip-name-twice", NoCmp)
-  ELSE CASE r.out.k = "exc" -> Verdict(r.id, FALSE, "parse-failed", NoCmp)
+  ELSE CASE r.out.k = "exc" -> \* a text that denotes nothing (0/0 at every point) may fail to evaluate
+                             IF Cmp(Ws, r.a, r.a).ndef = 0 THEN Verdict(r.id, TRUE, "parse-failed-on-undefined", NoCmp)
+                             ELSE Verdict(r.id, FALSE, "parse-failed", NoCmp)
          [] r.out.k = "expr" ->
               IF "unser" \in DOMAIN r.out THEN Verdict(r.id, FALSE, "parse-not-expression", NoCmp)
               ELSE LET c == Cmp(Ws, r.out.e, r.a) IN
                    IF c.nbad > 0 THEN Verdict(r.id, FALSE, "value", c)
-                   ELSE IF Unnested(r.a, FALSE) /\ BuilderOrdered(r.a) /\ (r.out.e # r.a \/ ~r.out.same_obj \/ ~r.out.same_str)
+                   ELSE IF Unnested(r.a, FALSE) /\ BuilderOrdered(r.a) /\ ~("raw" \in DOMAIN r /\ r.raw) /\ (r.out.e # r.a \/ ~r.out.same_obj \/ ~r.out.same_str)
                         THEN Verdict(r.id, FALSE, "roundtrip-equality", c)
                    ELSE Verdict(r.id, TRUE, IF c.ndef = 0 THEN "skip-undefined" ELSE "ok", c)
 \* normal form (C11): two canonical forms that must be identical objects
